@@ -76,6 +76,9 @@ pub struct Plan {
     /// a recorded schedule to follow literally (replay); absent = decisions come from the PRNG
     #[serde(default)]
     pub schedule: Option<String>,
+    /// queries[filler_from..] are filler texts over member names that occur in no document
+    #[serde(default)]
+    pub filler_from: Option<usize>,
 }
 
 #[derive(Clone, Debug, Serialize, Deserialize)]
@@ -381,7 +384,7 @@ pub fn execute(plan: Plan, full: bool) -> RunResult {
     let slots = plan.slots.iter().map(|cs| Mutex::new(Arc::new(Shared(DocBox::new(&values[cs[0]], sim_repr(plan.repr), cs[0]))))).collect();
     let n = plan.clients.len();
     let follow = plan.schedule.as_ref().and_then(|s| sched::unrle(s));
-    let sch = Sched::new(n, plan.seed, plan.policy.clone(), plan.site_mask, plan.faults.clone(), follow, full, 200_000);
+    let sch = Sched::new(n, plan.seed, plan.policy.clone(), plan.site_mask, plan.faults.clone(), follow, full, 5_000_000);
     let w = Arc::new(World {
         values,
         slots,
@@ -562,6 +565,98 @@ pub fn cold_main() -> i32 {
     }
     let res = ColdRes { w, p, q, e, parse, r#ref: rf, disagreement: dis };
     println!("{}", serde_json::to_string(&res).unwrap());
+    0
+}
+
+// ---------------------------------------------------------------------------------------------
+// agreement sweep: many (document, query) pairs through the four entry points, in fresh chunk processes
+
+#[derive(Serialize, Deserialize)]
+pub struct SweepReq {
+    pub seed: u64,
+    pub from: u64,
+    pub to: u64,
+}
+
+#[derive(Serialize, Deserialize, Default)]
+pub struct SweepOut {
+    pub pairs: u64,
+    pub non_empty: u64,
+    pub errs: u64,
+    pub first: Option<(ColdReq, String)>,
+    pub disagreements: u64,
+}
+
+pub fn sweep_family(seed: u64, f: u64, out: &mut SweepOut) {
+    let mut rng = Rng::new(derive(seed, "c12sweep", f));
+    let names: &[&str] = if f % 3 == 2 { gen::NAMES_ADV } else { gen::NAMES_PLAIN };
+    let p = DocParams { max_nodes: 6 + rng.below(20), max_depth: 1 + rng.below(4), names, max_width: 5 };
+    let doc = gen::gen_doc(&mut rng, &p);
+    let mut names_in = vec![];
+    gen::names_of(&doc, &mut names_in);
+    let g = QGen { names: &names_in, fancy: true, regex: f % 4 == 0, ext: true, safe_quotes: false };
+    let repr: u8 = if f % 5 == 4 { 1 + (f % 8) as u8 } else { 0 };
+    if sim_repr(repr) {
+        simdoc::set_personality(Personality(repr - 1));
+    }
+    let b = DocBox::new(&doc, sim_repr(repr), 0);
+    for _ in 0..20 {
+        let t = rng.weighted(&[3, 4, 3]);
+        let mut q = g.query(&mut rng, t);
+        match rng.below(12) {
+            0 => q = gen::respell(&mut rng, &q),
+            1 => q = gen::twin(&mut rng, &q),
+            2 => q = gen::invalidate(&mut rng, &q),
+            _ => {}
+        }
+        let dis = std::panic::catch_unwind(std::panic::AssertUnwindSafe(|| match &b.inner {
+            DocInner::V(d) => {
+                let t = obs::triple(d, &b.locs, &q);
+                (t.disagreement(), t.w.as_ref().map(|v| v.len()).ok())
+            }
+            DocInner::S(d) => {
+                let t = obs::triple(d, &b.locs, &q);
+                (t.disagreement(), t.w.as_ref().map(|v| v.len()).ok())
+            }
+        }));
+        out.pairs += 1;
+        match dis {
+            Ok((d, n)) => {
+                match n {
+                    Some(k) if k > 0 => out.non_empty += 1,
+                    None => out.errs += 1,
+                    _ => {}
+                }
+                if let Some(d) = d {
+                    out.disagreements += 1;
+                    if out.first.is_none() {
+                        out.first = Some((ColdReq { repr, content: doc.to_string(), query: q.clone() }, d));
+                    }
+                }
+            }
+            Err(_) => out.errs += 1,
+        }
+    }
+}
+
+/// `sim c12-sweep`
+pub fn sweep_main() -> i32 {
+    let mut text = String::new();
+    std::io::stdin().read_to_string(&mut text).expect("stdin");
+    let req: SweepReq = match serde_json::from_str(&text) {
+        Ok(p) => p,
+        Err(e) => {
+            eprintln!("harness error: bad sweep request: {}", e);
+            return 2;
+        }
+    };
+    install_panic_hook();
+    std::env::set_var("VERIF_QUIET_PANICS", "1");
+    let mut out = SweepOut::default();
+    for f in req.from..req.to {
+        sweep_family(req.seed, f, &mut out);
+    }
+    println!("{}", serde_json::to_string(&out).unwrap());
     0
 }
 
@@ -814,11 +909,16 @@ pub struct PlanMeta {
     /// plan content idx -> corpus content idx; plan query idx -> corpus query idx
     pub content_map: Vec<usize>,
     pub query_map: Vec<usize>,
+    /// (plan content idx, plan query idx) of a few filler keys to be computed cold as a check
+    pub filler_sample: Vec<(usize, usize)>,
 }
 
 pub fn gen_plan(c: &Corpus, run_seed: u64) -> (Plan, PlanMeta) {
     let mut rng = Rng::new(run_seed);
-    let repr: u8 = if rng.chance(7, 10) { 0 } else { 1 + rng.below(8) as u8 };
+    // 3 % of the runs are long-lived processes: hundreds of operations over hundreds of distinct query
+    // texts and member names, so that bounded tables and LRUs fill up and wrap while clients interleave
+    let stress = rng.chance(3, 100);
+    let repr: u8 = if stress { rng.below(2) as u8 } else if rng.chance(7, 10) { 0 } else { 1 + rng.below(8) as u8 };
     let n_slots = 1 + rng.below(4);
     let mut content_map: Vec<usize> = vec![];
     let mut slots: Vec<Vec<usize>> = vec![];
@@ -833,7 +933,7 @@ pub fn gen_plan(c: &Corpus, run_seed: u64) -> (Plan, PlanMeta) {
     };
     for s in 0..n_slots {
         // a later slot often repeats an earlier family: equal or nearly equal documents live together
-        let f = if s > 0 && rng.chance(1, 2) { *rng.pick(&fams_used) } else { rng.below(c.families.len()) };
+        let f = if s > 0 && rng.chance(1, 2) { *rng.pick(&fams_used) } else if stress { rng.below(c.families.len().min(3)) } else { rng.below(c.families.len()) };
         if !fams_used.contains(&f) {
             fams_used.push(f);
         }
@@ -885,15 +985,34 @@ pub fn gen_plan(c: &Corpus, run_seed: u64) -> (Plan, PlanMeta) {
             }
         }
     }
+    let n_normal_q = query_map.len();
+    let mut filler_texts: Vec<String> = vec![];
+    if stress {
+        let n_fill = 600 + rng.below(900);
+        for i in 0..n_fill {
+            let name = format!("zz{}_{}", run_seed % 1000, i);
+            filler_texts.push(match rng.below(5) {
+                0 => format!("$.{}", name),
+                1 => format!("$..{}", name),
+                2 => format!("$[*].{}", name),
+                3 => format!("$..[?@.{}]", name),
+                _ => format!("$.*['{}']", name),
+            });
+        }
+    }
+    let n_all_q = n_normal_q + filler_texts.len();
     let n_qslots = 1 + rng.below(4);
-    let qslots: Vec<usize> = (0..n_qslots).map(|_| rng.below(query_map.len())).collect();
+    let qslots: Vec<usize> = (0..n_qslots).map(|_| rng.below(n_normal_q)).collect();
     // which (query, slot) pairs are allowed: the query's own families
     let slot_ok = |q_local: usize, d: usize| -> bool {
+        if q_local >= n_normal_q {
+            return true;
+        }
         let qi = query_map[q_local];
         let fam_of_slot = c.families.iter().position(|fam| fam.contains(&content_map[slots[d][0]])).unwrap_or(0);
         c.fam_queries[fam_of_slot].contains(&qi) || c.q_other_family[qi] == fam_of_slot
     };
-    let n_clients = match rng.weighted(&[2, 3, 3, 2]) {
+    let n_clients = match if stress { 1 + rng.below(2) } else { rng.weighted(&[2, 3, 3, 2]) } {
         0 => 1,
         1 => 2,
         2 => 3,
@@ -906,13 +1025,14 @@ pub fn gen_plan(c: &Corpus, run_seed: u64) -> (Plan, PlanMeta) {
     let w_ref = rng.below(2) as u32;
     let mut clients = vec![];
     for _ in 0..n_clients {
-        let n_ops = 3 + rng.below(38);
+        let n_ops = if stress { 400 + rng.below(500) } else { 3 + rng.below(38) };
         let mut ops = vec![];
         let mut guard = 0;
-        while ops.len() < n_ops && guard < 400 {
+        while ops.len() < n_ops && guard < 8000 {
             guard += 1;
             let d = rng.below(n_slots);
-            let q = rng.below(query_map.len());
+            // in a long-lived run two operations in three take the next fresh filler text
+            let q = if stress && rng.chance(2, 3) { n_normal_q + rng.below(n_all_q - n_normal_q) } else { rng.below(n_normal_q) };
             let s = rng.below(n_qslots);
             let op = match rng.weighted(&[5, 4, 5, w_parse, w_e, 1, w_ref, w_swap, w_clone_doc]) {
                 0 => Op::Q { q, d },
@@ -947,7 +1067,8 @@ pub fn gen_plan(c: &Corpus, run_seed: u64) -> (Plan, PlanMeta) {
     } else {
         match rng.weighted(&[3, 10, 5]) {
             0 => Policy::RunToCompletion,
-            1 => Policy::Random { p: 20 + rng.below(581) as u32 },
+            // long-lived runs have tens of thousands of schedule points: switch rarely, or each costs seconds
+            1 => Policy::Random { p: if stress { 3 + rng.below(40) as u32 } else { 20 + rng.below(581) as u32 } },
             _ => {
                 let d = 1 + rng.below(3);
                 Policy::Pct { changes: (0..d).map(|_| 1 + rng.below(1500) as u64).collect() }
@@ -1002,7 +1123,7 @@ pub fn gen_plan(c: &Corpus, run_seed: u64) -> (Plan, PlanMeta) {
                         _ => None,
                     }
                 };
-                let fitting: Vec<usize> = candidates.iter().copied().filter(|i| query_of(&clients[cl][*i]).map(|q| needles.iter().any(|n| c.queries[query_map[q]].contains(n))).unwrap_or(false)).collect();
+                let fitting: Vec<usize> = candidates.iter().copied().filter(|i| query_of(&clients[cl][*i]).map(|q| q < n_normal_q && needles.iter().any(|n| c.queries[query_map[q]].contains(n))).unwrap_or(false)).collect();
                 if !fitting.is_empty() {
                     op = *rng.pick(&fitting);
                 }
@@ -1028,7 +1149,7 @@ pub fn gen_plan(c: &Corpus, run_seed: u64) -> (Plan, PlanMeta) {
         repr,
         contents: content_map.iter().map(|ci| c.contents[*ci].clone()).collect(),
         slots: slots.clone(),
-        queries: query_map.iter().map(|qi| c.queries[*qi].clone()).collect(),
+        queries: query_map.iter().map(|qi| c.queries[*qi].clone()).chain(filler_texts.iter().cloned()).collect(),
         qslots,
         clients,
         policy,
@@ -1036,9 +1157,13 @@ pub fn gen_plan(c: &Corpus, run_seed: u64) -> (Plan, PlanMeta) {
         faults,
         thread_per_op,
         schedule: None,
+        filler_from: if stress { Some(n_normal_q) } else { None },
     };
-    let keys = plan_keys(&plan).into_iter().map(|(ct, q)| (repr, content_map[ct], query_map[q])).collect();
-    (plan, PlanMeta { keys, content_map, query_map })
+    // fillers select nothing whatever the document (their names occur nowhere), so they need no cold
+    // process each; a sample of them is computed cold anyway, to check exactly that assumption
+    let keys = plan_keys(&plan).into_iter().filter(|(_, q)| *q < n_normal_q).map(|(ct, q)| (repr, content_map[ct], query_map[q])).collect();
+    let filler_sample: Vec<(usize, usize)> = plan_keys(&plan).into_iter().filter(|(_, q)| *q >= n_normal_q).take(6).collect();
+    (plan, PlanMeta { keys, content_map, query_map, filler_sample })
 }
 
 /// (plan content idx, plan query idx) pairs whose cold result the plan may need.
@@ -1127,6 +1252,14 @@ pub fn judge(plan: &Plan, r: &RunResult, table: &ColdTable) -> Vec<Mismatch> {
         let mut matched = false;
         let mut first_expected = None;
         let mut have = false;
+        if plan.filler_from.map(|f| rec.q >= f).unwrap_or(false) && !contents.iter().any(|ct| table.contains_key(&(plan.repr, plan.contents[*ct].clone(), query.clone()))) {
+            // a filler whose cold result was not computed: a name that occurs in no document selects nothing
+            let exp = if rec.kind == "Ref" { "None" } else { "Ok[]" };
+            if fnv(exp.as_bytes()) != rec.digest {
+                out.push(Mismatch { class: "obs-differs".into(), c: rec.c, j: rec.j, kind: rec.kind.clone(), query: query.clone(), content: contents.first().map(|c| plan.contents[*c].clone()).unwrap_or_default(), expected: Some(exp.into()), observed: rec.obs.clone(), detail: format!("operation {} of client {} ({}) on a member name that occurs in no document did not give the empty result", rec.j, rec.c, rec.kind) });
+            }
+            continue;
+        }
         for ct in &contents {
             let Some(cold) = table.get(&(plan.repr, plan.contents[*ct].clone(), query.clone())) else { continue };
             have = true;
@@ -1208,8 +1341,11 @@ pub fn minimise(plan: &Plan, table: &mut ColdTable, class: &str, kind: &str, bud
     let mut cur = plan.clone();
     cur.schedule = None;
     let mut spent = 0usize;
+    let started = std::time::Instant::now();
+    // long-lived runs are expensive to re-execute: the candidate budget is also a wall-clock budget
+    let budget = if plan.clients.iter().map(|c| c.len()).sum::<usize>() > 200 { budget.min(120) } else { budget };
     let try_cand = |cand: Plan, cur: &mut Plan, spent: &mut usize, table: &ColdTable| -> bool {
-        if *spent >= budget {
+        if *spent >= budget || started.elapsed().as_secs() > 120 {
             return false;
         }
         *spent += 1;
@@ -1342,6 +1478,8 @@ pub struct TierCfg {
     pub name: &'static str,
     pub families: usize,
     pub q_per_fam: usize,
+    /// families of the agreement sweep (20 queries each)
+    pub sweep_families: u64,
     pub runs: u64,
     pub determinism_reruns: u64,
     pub wall_budget_s: f64,
@@ -1349,8 +1487,8 @@ pub struct TierCfg {
 
 pub fn tier(name: &str) -> TierCfg {
     match name {
-        "thorough" => TierCfg { name: "thorough", families: 48, q_per_fam: 14, runs: 400_000, determinism_reruns: 5_000, wall_budget_s: 900.0 },
-        _ => TierCfg { name: "quick", families: 16, q_per_fam: 8, runs: 10_000, determinism_reruns: 300, wall_budget_s: 45.0 },
+        "thorough" => TierCfg { name: "thorough", families: 48, q_per_fam: 14, sweep_families: 1_000_000, runs: 400_000, determinism_reruns: 5_000, wall_budget_s: 900.0 },
+        _ => TierCfg { name: "quick", families: 16, q_per_fam: 8, sweep_families: 20_000, runs: 10_000, determinism_reruns: 300, wall_budget_s: 45.0 },
     }
 }
 
@@ -1408,6 +1546,45 @@ pub fn drive(tier_name: &str, seed: u64, workers: usize) -> i32 {
     println!("corpus: {} contents in {} families, {} queries", corpus.contents.len(), corpus.families.len(), corpus.queries.len());
     let mut table: ColdTable = HashMap::new();
     let mut cold_disagreements: Vec<(ColdReq, String)> = vec![];
+    // agreement sweep: the four entry points on many (document, query) pairs, in fresh chunk processes
+    let sweep_families: u64 = std::env::var("VERIF_C12_SWEEP").ok().and_then(|s| s.parse().ok()).unwrap_or(t.sweep_families);
+    let mut sweep = SweepOut::default();
+    {
+        let chunk = 2000u64;
+        let reqs: Vec<SweepReq> = (0..(sweep_families + chunk - 1) / chunk).map(|ci| SweepReq { seed, from: ci * chunk, to: ((ci + 1) * chunk).min(sweep_families) }).collect();
+        let outs = par_map(&reqs, workers, |r| spawn_with_input(&["c12-sweep"], &serde_json::to_string(r).unwrap(), 600).and_then(|o| serde_json::from_str::<SweepOut>(o.trim()).map_err(|e| e.to_string())));
+        for o in outs {
+            match o {
+                Ok(o) => {
+                    sweep.pairs += o.pairs;
+                    sweep.non_empty += o.non_empty;
+                    sweep.errs += o.errs;
+                    sweep.disagreements += o.disagreements;
+                    if sweep.first.is_none() {
+                        sweep.first = o.first;
+                    }
+                }
+                Err(e) => {
+                    eprintln!("harness error: sweep chunk: {}", e);
+                    return 2;
+                }
+            }
+        }
+        if let Some((req, _)) = &sweep.first {
+            // confirm in a process of its own
+            match run_cold(req) {
+                Ok(c) => {
+                    if let Some(d) = c.disagreement {
+                        cold_disagreements.push((req.clone(), d));
+                    }
+                }
+                Err(e) => {
+                    eprintln!("harness error: cold: {}", e);
+                    return 2;
+                }
+            }
+        }
+    }
     let batch = 2000u64;
     let mut done: u64 = 0;
     let mut agg_steps = 0u64;
@@ -1436,7 +1613,7 @@ pub fn drive(tier_name: &str, seed: u64, workers: usize) -> i32 {
     let mut cap_hits = 0u64;
     let mut wall_runs = 0.0f64;
 
-    while done < runs_target {
+    while done < runs_target && cold_disagreements.is_empty() {
         if t0.elapsed().as_secs_f64() > t.wall_budget_s && done > 0 {
             break;
         }
@@ -1456,7 +1633,12 @@ pub fn drive(tier_name: &str, seed: u64, workers: usize) -> i32 {
             }
         }
         let need: Vec<(u8, usize, usize)> = need.into_iter().collect();
-        let reqs: Vec<ColdReq> = need.iter().map(|k| ColdReq { repr: k.0, content: corpus.contents[k.1].clone(), query: corpus.queries[k.2].clone() }).collect();
+        let mut reqs: Vec<ColdReq> = need.iter().map(|k| ColdReq { repr: k.0, content: corpus.contents[k.1].clone(), query: corpus.queries[k.2].clone() }).collect();
+        for (_, p, m) in &plans {
+            for (ct, q) in &m.filler_sample {
+                reqs.push(ColdReq { repr: p.repr, content: p.contents[*ct].clone(), query: p.queries[*q].clone() });
+            }
+        }
         let colds = par_map(&reqs, workers, |r| run_cold(r));
         for (req, res) in reqs.iter().zip(colds) {
             match res {
@@ -1554,7 +1736,7 @@ pub fn drive(tier_name: &str, seed: u64, workers: usize) -> i32 {
     let mut determinism_mismatch: Vec<u64> = vec![];
     if harness_errors.is_empty() && first_violation.is_none() {
         let sample: Vec<(u64, u64)> = fingerprints.iter().take(t.determinism_reruns as usize).cloned().collect();
-        let res = par_map(&sample, 3, |(i, _)| {
+        let res = par_map(&sample, 7, |(i, _)| {
             let (p, _) = gen_plan(&corpus, derive(seed, "run", *i));
             run_plan(&p, false).map(|r| r.fingerprint)
         });
@@ -1568,6 +1750,7 @@ pub fn drive(tier_name: &str, seed: u64, workers: usize) -> i32 {
         }
     }
 
+    println!("phases: runs {:.1}s of {:.1}s so far", wall_runs, t0.elapsed().as_secs_f64());
     let mut exit = 0;
     let mut replay_path: Option<std::path::PathBuf> = None;
     let mut violations = 0usize;
@@ -1666,14 +1849,16 @@ pub fn drive(tier_name: &str, seed: u64, workers: usize) -> i32 {
     let site_names = site_names();
     let named = |v: &Vec<u64>| -> BTreeMap<String, u64> { v.iter().enumerate().filter(|(_, n)| **n > 0).map(|(i, n)| (site_names.get(&(i as u32)).cloned().unwrap_or(format!("site{}", i)), *n)).collect() };
     let cov = json!({
-        "evaluations": done,
+        "evaluations": done + sweep.pairs,
+        "simulated_runs": done,
         "distinct_nontrivial": sigs.len(),
-        "rule": "one evaluation = one simulated run in a fresh OS process (1-4 caller threads under the baton scheduler, up to 40 operations each, seeded plan); non-trivial = at least two clients and at least one context switch inside an operation; distinct = distinct FNV signature of the (client, site, next client) sequence at context switches",
+        "rule": "evaluations = simulated runs + agreement-sweep pairs (see agreement_sweep); distinct_nontrivial counts simulated runs only. One simulated run = one fresh OS process (1-4 caller threads under the baton scheduler, up to 40 operations each, seeded plan); non-trivial = at least two clients and at least one context switch inside an operation; distinct = distinct FNV signature of the (client, site, next client) sequence at context switches",
         "samples": samples,
         "nontrivial_runs": nontrivial_runs,
         "operations_executed": agg_ops,
         "operations_by_kind": ops_by_kind,
         "operation_status": status_counts,
+        "agreement_sweep": {"pairs": sweep.pairs, "non_empty_results": sweep.non_empty, "errors_or_panics_on_all_four": sweep.errs, "disagreements": sweep.disagreements, "what": "the four entry points compared position by position on generated (document, query) pairs, in fresh chunk processes"},
         "cold_oracle_keys": table.len(),
         "cold_oracle_processes": table.len(),
         "scheduler_steps": agg_steps,
@@ -1691,7 +1876,7 @@ pub fn drive(tier_name: &str, seed: u64, workers: usize) -> i32 {
         "miri_layer": miri_summary,
         "runs_that_hit_the_step_cap": cap_hits,
         "runs_that_stalled_and_were_re_run_with_atomic_operations": STALLED_RUNS.load(std::sync::atomic::Ordering::Relaxed),
-        "determinism": {"runs_re_executed_in_a_second_process_at_3_workers": determinism_checked, "fingerprint_mismatches": determinism_mismatch.len()},
+        "determinism": {"runs_re_executed_in_a_second_process_at_7_workers": determinism_checked, "fingerprint_mismatches": determinism_mismatch.len()},
         "runs_per_hour": if wall_runs > 0.0 { (done as f64 / wall_runs * 3600.0) as u64 } else { 0 },
         "simulated_time": format!("{} scheduler steps (the system under test reads no clock)", agg_steps),
         "real_components": ["jsonpath-rust parser and evaluator", "impl Queryable for serde_json::Value", "pest", "regex", "serde_json", "std threads, thread-locals, allocator"],
